@@ -80,7 +80,7 @@ CLAIMS["C02"] = dict(
     ref="DESIGN.md section 4 C02")
 
 CLAIMS["C01"] = dict(
-    text="Proof (unbounded) of three mechanisms the equivalence rests on, nothing more: (1) every HasCall implementation computes exactly 'a call occurs in the node outside function literals' (the condition under which BinOp may keep its left operand in the VM's single temp register across the evaluation of the right operand); (2) operand fetch returns the data-segment constant itself for DS operands and pops the stack only for stack operands; (3) a forked iterator context cannot write the parent's closure stack. The operator results (C11), the structural code-generation contract (C12) and the memory model (C18) are claimed under their own ids.",
+    text="Proof (unbounded) of three mechanisms the equivalence rests on, nothing more: (1) every HasCall implementation computes exactly 'a call occurs in the node outside function literals' (the condition under which BinOp may keep its left operand in the VM's single temp register across the evaluation of the right operand); (2) operand fetch returns the data-segment constant itself for DS operands and pops the stack only for stack operands; (3) a forked iterator context cannot write the parent's closure stack; (4) the compiler's operator table is the documented one, the left operand goes to field 1 (the VM computes src1 op src0), jump polarity follows negation, the increment instruction is used only for x = x + 1 / x = 1 + x, and every byteCode method satisfies the structural contract K (see C12) - this check runs those obligations too, so a change to the code generator is reported against C01 as well. The operator results (C11) and the memory model (C18) are claimed under their own ids.",
     note="NOT decided: the property's sentence - equality of value, output and error class between compiler+VM and a definitional evaluator over all programs. That needs a step semantics of the VM composed with the emitted code (a simulation argument), which is outside what contracts on single functions express here. Listed so that changes to these three mechanisms are reported against C01 as well.",
     ref="DESIGN.md change log B.2")
 CLAIMS["C07"] = dict(
